@@ -1,7 +1,9 @@
 """C10 — no input can inject into or split the HTTP request on the wire.
 
 case = {"level": 1|2|3, "method": str, "url": str, "headers": [[name, value], ...],
-        "body": absent | ["bytes", b] | ["str", s] | ["iter", [str or bytes chunks]] (sent chunked) - cases with a body are judged by the oracle only}
+        "body": absent | ["bytes", b] | ["str", s] | ["iter", [str or bytes chunks]] (sent chunked) - cases with a body are judged by the oracle only,
+        "then": absent | {"method", "url", "headers"} (level 1 only: when the first request() fails, the caller closes the connection object and
+        makes this request on it; what is judged is what that second call writes - oracle only)}
 level 1: HTTPConnection("h.example", 80).request(method, url, headers=...)         (url used as given)
 level 2: HTTPConnectionPool("h.example", 80).urlopen(method, url, headers=...)      (url starts with "/")
 level 3: PoolManager().request(method, "http://h.example" + url, headers=...)
@@ -46,7 +48,7 @@ def describe(case):
 
 
 def in_model_domain(case):
-    return not case.get("body")
+    return not case.get("body") and not case.get("then")
 
 
 def payload_of(body):
@@ -91,7 +93,19 @@ def impl(case):
         kw["body"] = iter(list(v)) if kind == "iter" else v
     with installed(net):
         try:
-            if case["level"] == 1:
+            if case["level"] == 1 and case.get("then"):
+                c = HTTPConnection("h.example", 80)
+                try:
+                    c.request(case["method"], case["url"], headers=headers, **kw)
+                    c.getresponse()
+                except (ValueError, http.client.HTTPException, UnicodeEncodeError):
+                    pass
+                c.close()
+                del sent[:]
+                t = case["then"]
+                c.request(t["method"], t["url"], headers={n: v for n, v in t["headers"]})
+                c.getresponse()
+            elif case["level"] == 1:
                 c = HTTPConnection("h.example", 80)
                 c.request(case["method"], case["url"], headers=headers, **kw)
                 c.getresponse()
@@ -185,6 +199,17 @@ def oracle(case, obs):
     problems, sent = _STASH.pop(id(case), ([], b""))
     if problems:
         return problems[0]
+    if case.get("then"):
+        # what the second call on the same connection object wrote must be that request and nothing else
+        t = case["then"]
+        if obs[0] != 0:
+            return None
+        r = read_head(sent)
+        first_line = sent.split(b"\r\n", 1)[0]
+        want_line = ("%s %s HTTP/1.1" % (t["method"], t["url"])).encode("latin-1")
+        if first_line != want_line or r is None or sent.count(b" HTTP/1.1\r\n") != 1:
+            return "after a failed request() on the same connection object the next request() wrote more than its own request: %r" % sent[:160]
+        return None
     if obs[0] != 0:
         return None
     r = read_head(sent)
@@ -256,6 +281,8 @@ def oracle(case, obs):
 
 
 def signature(case, obs, msg):
+    if case.get("then") and "after a failed request()" in (msg or ""):
+        return {"kind": "stale-buffer-after-failed-request"}
     return {"msg": (msg or "")[:50]}
 
 
@@ -351,6 +378,18 @@ def cases(rng, tier):
     for _ in range(1000 if tier == "quick" else 30000):
         c = one_case(rng)
         c["body"] = rand_body(rng)
+        out.append(c)
+    # a connection object used again after a failed request(): every way the first request can fail part-way
+    nxt = {"method": "GET", "url": "/second", "headers": [["X-Next", "1"]]}
+    for bad in (["X-B", "bad\r\nvalue"], ["X-B", "bad\nvalue"], ["X B", "v"], ["X-B:", "v"], ["X-B", "v\x00"], ["X-\u00e9", "v"], ["X-B", "\u20ac"]):
+        for before in ([], [["X-A", "1"]], [["X-A", "1"], ["Accept", "*/*"]]):
+            out.append({"level": 1, "method": "GET", "url": "/first", "headers": before + [bad], "then": dict(nxt)})
+    for m, u in (("GET", "/a b"), ("G ET", "/first"), ("GET", "/first\r\nX: 1"), ("POST", "/\u00e9")):
+        out.append({"level": 1, "method": m, "url": u, "headers": [["X-A", "1"]], "then": dict(nxt)})
+    for _ in range(200 if tier == "quick" else 4000):
+        c = one_case(rng)
+        c["level"] = 1
+        c["then"] = dict(nxt)
         out.append(c)
     # every hostile string at every insertion point of method, url, one header name and one header value
     for level in (1, 2, 3):
